@@ -19,6 +19,8 @@ var StrPieces = []string{
 	"\"", "\\", "\\n", "\\\"", "$", "%", "{", "}", "~", "${", "%{", "$${", "%%{", "$$", "%%", "${~", "~}", "$${~",
 	"\x00", "\x01", "\x07", "\x1b", "\x7f", "\u0085", "\u2028", "\u00a0", "\ufeff", "\u3000",
 	"\u00e9", "e\u0301", "\u00fc", "\u00df", "\u65e5\u672c", "\U0001F600", "\U0001F468\u200d\U0001F469", "\u0301",
+	// non-printable code points beyond the BMP (private use planes 15 / 16, tags, the last code points)
+	"\U0010FFFD", "\U00100000", "\U0010FFFF", "\U000F0000", "\U000E0001", "\U0001FFFE", "\uFFFE", "\uE000",
 	"for", "in", "if", "else", "endif", "endfor", "null", "true", "false",
 	"0", "1", "12", "-", "-1", ".", "1.5", "*", "#", "//", "/*", "*/", "<<EOT", "EOT", "<<-", "'", "`", ";", ":", "=", "=>", "...", ",", "(", ")", "[", "]", "?", "&&", "||", "!",
 }
